@@ -200,6 +200,7 @@ fn res_of<X>(r: &Result<X, Error>) -> (&'static str, bool) {
                 Error::Send { .. } => "send",
                 Error::Timeout { .. } => "timeout",
                 Error::Receive { .. } => "recv",
+                Error::Join { source, .. } if source.is_cancelled() => "joinc",
                 Error::Join { .. } => "join",
                 _ => "other",
             },
